@@ -1,7 +1,7 @@
 (* C05/Property.v — property C05 (log blocks are created as configured and log data decodes to device
    values), theorems only.  Each is closed by `exact <lemma>` and followed by Print Assumptions.
-   Model: C05/Model.v (with fixes/F05b.patch applied to add_config and fixes/F05d.patch to SyncLogger.connect).  Clauses that the code does NOT
-   satisfy are stated as Definitions `..._full` with a theorem `..._refuted` (findings F05a, F05c). *)
+   Model: C05/Model.v (with fixes/F05b.patch applied to add_config and fixes/F05d.patch to SyncLogger.connect, fixes/F05c.patch to the reset acknowledgement).  Clauses that the code does NOT
+   satisfy are stated as Definitions `..._full` with a theorem `..._refuted` (finding F05a). *)
 Require Import CF.C05.Model CF.C05.Proofs_create CF.C05.Proofs_add CF.C05.Proofs_unpack CF.C05.Proofs_flags CF.C05.Proofs_hist CF.C05.Proofs_sync CF.C05.Examples.
 Open Scope Z_scope.
 
@@ -78,6 +78,17 @@ Theorem C05_create_terminates : forall v2 otc id vs, snd (create_msgs v2 otc id 
 Proof. exact create_terminates. Qed.
 Print Assumptions C05_create_terminates.
 
+(* protocol V1 (firmware protocol < 4; not the "current protocol" of the property): one message
+   (0, id, then one (type, index) pair per variable), decoded by the device into exactly the variables; there is NO room test in the
+   code, the message has 2 + 2n bytes and exceeds the 30-byte CRTP payload for n >= 15 *)
+Theorem C05_create_messages_v1 : forall tc id vs, Forall (var_good_v1 tc) vs ->
+  let msg := [g_cmd_create; id] ++ enc_v1 (map (entry_of tc) vs) in
+  create_msgs false (Some tc) id vs = ([OWire 5 g_chan_settings msg [g_cmd_create; id]], None) /\
+  fw_entries_v1 (skipn 2 msg) = map (entry_of tc) vs /\
+  length msg = (2 + 2 * length vs)%nat.
+Proof. exact create_messages_v1. Qed.
+Print Assumptions C05_create_messages_v1.
+
 (* The full clause also covers raw-memory variables (LogConfig.add_memory).  It is false: F05a. *)
 Definition C05_create_all_variables_full : Prop :=
   forall tc id vs, Forall (fun v => v_toc v = true -> var_good tc v) vs ->
@@ -139,13 +150,15 @@ Proof. exact reachable_blocks_valid. Qed.
 Print Assumptions C05_reachable_blocks_valid.
 
 (* An incoming packet changes added/started of the addressed block exactly as the acknowledgement says
-   (create ok/EEXIST: added; start ok: started; stop ok: not started; delete ok/ENOENT: neither), and of
-   no other configuration. *)
+   (create ok/EEXIST: added; start ok: started; stop ok: not started; delete ok/ENOENT: neither), the
+   acknowledged reset of a new session clears both for every block of log_blocks (fixes/F05c.patch),
+   and no other configuration is touched. *)
 Theorem C05_flags_follow_acks : forall s chan data, blocks_valid s -> forall h,
   flags (get (fst (fst (on_packet s chan data))) h) =
     match ack_of chan data with
     | Some (cmd, id, status) =>
-        if addressed s id h then ack_effect cmd status (flags (get s h)) else flags (get s h)
+        if reset_applies s cmd && memb h (s_blocks s) then (false, false)
+        else if addressed s id h then ack_effect cmd status (flags (get s h)) else flags (get s h)
     | None => flags (get s h)
     end.
 Proof. exact packet_flags. Qed.
@@ -157,14 +170,28 @@ Theorem C05_callbacks_follow_acks : forall s chan data,
   filter is_flag_cb o =
     match ack_of chan data with
     | Some (cmd, id, status) =>
-        match find_block s id with
-        | Some h => expected_cbs h (flags (get s h)) (ack_effect cmd status (flags (get s h)))
-        | None => []
-        end
+        if reset_applies s cmd then snd (forget_blocks s (s_blocks s))
+        else match find_block s id with
+             | Some h => expected_cbs h (flags (get s h)) (ack_effect cmd status (flags (get s h)))
+             | None => []
+             end
     | None => []
     end.
 Proof. exact packet_obs. Qed.
 Print Assumptions C05_callbacks_follow_acks.
+
+(* ... where the callbacks of the acknowledged reset are, for pairwise different blocks, one
+   started_cb(config, False) / added_cb(config, False) per flag that was set *)
+Theorem C05_reset_callbacks : forall bl s, Forall (fun h => valid_h s h = true) bl -> NoDup bl ->
+  snd (forget_blocks s bl) = flat_map (fun h => expected_cbs h (flags (get s h)) (false, false)) bl.
+Proof. exact forget_blocks_cbs. Qed.
+Print Assumptions C05_reset_callbacks.
+
+Theorem C05_reset_ack_empties_blocks : forall s cmd id status, reset_applies s cmd = true ->
+  s_blocks (fst (fst (on_settings s cmd id status))) = [] /\
+  s_toc (fst (fst (on_settings s cmd id status))) = Some [].
+Proof. exact reset_ack_blocks. Qed.
+Print Assumptions C05_reset_ack_empties_blocks.
 
 (* START (with the period) is sent exactly on a positive create acknowledgement of a block not yet added *)
 Theorem C05_start_sent_on_create_ack : forall s chan data cmd id status h,
@@ -193,15 +220,18 @@ Theorem C05_readd_idempotent : forall s h evs,
 Proof. exact readd_idempotent. Qed.
 Print Assumptions C05_readd_idempotent.
 
-(* The flags follow acknowledgements only; a new session resets the device, but not the flags.  So the
-   clause "for an accepted configuration start() sends the creation messages" fails after a reconnect
-   (finding F05c): the re-added, accepted configuration gets START for an id the device never saw. *)
-Theorem C05_reconnect_start_skips_create_refuted : exists evs,
+(* Reconnect: the block was added and started in the first session; after the reset acknowledgement of
+   the second session its flags are clear (callbacks fired), the re-added configuration gets a new id and
+   start() sends the creation message again (finding F05c, repaired by fixes/F05c.patch). *)
+Theorem C05_reconnect_recreates : exists evs,
   let s := final init_st evs in
   s_blocks s = [0%nat] /\ c_valid (get s 0) = true /\ c_id (get s 0) = 2 /\
-  start s 0 = (s, [OWire 5 1 [3; 2; 10] [3; 2]], None).
-Proof. exact (ex_intro _ ex_reconnect_history ex_reconnect_start_sends_no_create). Qed.
-Print Assumptions C05_reconnect_start_skips_create_refuted.
+  flags (get s 0) = (false, false) /\
+  start s 0 = (put s 0 (set_pending (get s 0) 1), [OWire 5 1 [6; 2; 17; 45; 1] [6; 2]], None) /\
+  nth 11 (snd (run init_st evs)) ([], None)
+    = ([OCb cb_started 0 [0]; OCb cb_added 0 [0]; OWire 5 0 [3] [3]], None).
+Proof. exact (ex_intro _ ex_reconnect_history ex_reconnect_recreates). Qed.
+Print Assumptions C05_reconnect_recreates.
 
 (* ---------------------------------------------------------------- SyncLogger *)
 
